@@ -73,7 +73,12 @@ pub fn worker_main(
       fps.insert(o.fingerprint);
     }
     for (k, v) in &o.stats {
-      *sum.stats.entry(k.clone()).or_insert(0) += *v;
+      let e = sum.stats.entry(k.clone()).or_insert(0);
+      if k.starts_with("max.") {
+        *e = (*e).max(*v);
+      } else {
+        *e += *v;
+      }
     }
     if record_digest {
       sum.digests.push((o.seed, o.digest));
@@ -432,7 +437,12 @@ pub fn run_main(a: &RunArgs) -> i32 {
     nontrivial_runs += s.nontrivial_runs;
     fps.extend(s.fingerprints.iter().copied());
     for (k, v) in &s.stats {
-      *stats.entry(k.clone()).or_insert(0) += *v;
+      let e = stats.entry(k.clone()).or_insert(0);
+      if k.starts_with("max.") {
+        *e = (*e).max(*v);
+      } else {
+        *e += *v;
+      }
     }
     sim_ns += s.sim_ns;
     steps += s.steps;
@@ -620,6 +630,8 @@ pub fn run_main(a: &RunArgs) -> i32 {
       faults.insert(r.to_string(), *v);
     } else if let Some(r) = k.strip_prefix("probe.") {
       probes.insert(r.to_string(), *v);
+    } else if k.starts_with("max.") {
+      probes.insert(k.clone(), *v);
     } else {
       other.insert(k.clone(), *v);
     }
